@@ -293,6 +293,10 @@ def run_item(ctx, item):
             ms = [m for m in p.iter_all(S.Measure)]
             if len(ms) >= 2:
                 p.add(S.Repeat(), ms[0].start.t, ms[1].start.t)
+                if len(ms) >= 3 and rng.random() < 0.4:
+                    # a repeat sign that was never closed (a part under construction, or edited by hand)
+                    p.add(S.Repeat(), ms[2].start.t)
+                    ctx.extra["scores_with_an_open_repeat"] += 1
         if rng.random() < 0.4:
             # configurations: musical-beat mode with user-supplied beats per signature
             for p_ in sc.parts:
